@@ -14,6 +14,7 @@ type GenCfg struct {
 	MaxAnn       int // container nesting inside one annotation (0 => 3)
 	Holder       bool
 	Extras       bool
+	EmbHolder    bool // extras may include an embedded struct that itself declares a holder
 	NoCopy       bool
 	Spellings    bool     // randomise equivalent tag spellings
 	NamedRefs    []string // registered named struct types usable as references
@@ -23,10 +24,14 @@ type GenCfg struct {
 	MaxBytes     int // approximate bound of one value's encoded size (0 => 16 KiB)
 	ContainerMax int // max elements per container (0 => 40), rare large ones on top
 	RequiredBias int // percent of fields required (0 => 20)
+	CountChoices []int // when set, container sizes are drawn from this list
+	HolderBytes  bool  // holders may carry retained unknown-field bytes
+	NoNil        bool  // never generate nil containers / binaries / struct pointers
 	// Exclusions for open known findings (counted by the caller).
 	NoID65535      bool
 	NoBinaryMapVal bool
 	NoZeroSizeStruct bool // avoid by-value structs with no fields
+	maxNestZero      bool // every struct position is a named reference
 }
 
 func (c GenCfg) maxFields() int {
@@ -36,6 +41,9 @@ func (c GenCfg) maxFields() int {
 	return c.MaxFields
 }
 func (c GenCfg) maxNest() int {
+	if c.maxNestZero {
+		return 0
+	}
 	if c.MaxNest == 0 {
 		return 2
 	}
@@ -149,14 +157,18 @@ func genStruct(t *rapid.T, c GenCfg, nest int, label string) *StructSpec {
 	}
 	if c.Extras && rapid.IntRange(0, 4).Draw(t, "extras") == 0 {
 		n := rapid.IntRange(1, 3).Draw(t, "nextras")
-		emb := false
+		emb := map[uint8]bool{}
 		for i := 0; i < n; i++ {
-			k := uint8(rapid.IntRange(0, 2).Draw(t, "xkind"))
-			if k == 2 {
-				if emb {
+			hi := 2
+			if c.EmbHolder {
+				hi = 3
+			}
+			k := uint8(rapid.IntRange(0, hi).Draw(t, "xkind"))
+			if k >= 2 {
+				if emb[k] {
 					k = 0
 				}
-				emb = true
+				emb[k] = true
 			}
 			name := fmt.Sprintf("X%d", i)
 			if k == 1 {
@@ -196,7 +208,7 @@ func genType(t *rapid.T, c GenCfg, nest, ann int, pos typePos) *TypeSpec {
 	if pos == posKey {
 		// bool,i8,i16,i32,i64,double,string,enum,*struct
 		k := rapid.IntRange(0, 9).Draw(t, "keykind")
-		if k == 8 && nest < c.maxNest() {
+		if k == 8 && (nest < c.maxNest() || len(c.NamedRefs) > 0) {
 			ts := genStructRef(t, c, nest, true)
 			if ts.Struct != nil && ZeroSize(ts.Struct) {
 				// pointers to zero-size variables need not be distinct in Go, so such keys
@@ -321,7 +333,58 @@ func (g *valGen) structVal(s *StructSpec, depth int) *SVal {
 	for _, f := range s.Fields {
 		sv.F[f.ID] = g.fieldVal(f, depth)
 	}
+	if s.Holder && g.c.HolderBytes && rapid.IntRange(0, 2).Draw(g.t, "holderbytes") == 0 {
+		sv.Unk = GenUnknownFields(g.t, s, &g.budget)
+		sv.UnkNil = false
+	}
 	return sv
+}
+
+// unknownFieldTypes are the shapes of retained unknown fields.
+var unknownFieldTypes = []*TypeSpec{
+	{Kind: KBool}, {Kind: KI8}, {Kind: KI16}, {Kind: KI32}, {Kind: KI64}, {Kind: KDouble}, {Kind: KString},
+	{Kind: KList, Elem: &TypeSpec{Kind: KI32}},
+	{Kind: KSet, Elem: &TypeSpec{Kind: KString}},
+	{Kind: KMap, Key: &TypeSpec{Kind: KString}, Elem: &TypeSpec{Kind: KI64}},
+	{Kind: KStruct, Struct: &StructSpec{Fields: []*FieldSpec{{Name: "U1", ID: 1, Type: &TypeSpec{Kind: KI32}}, {Name: "U2", ID: 2, Type: &TypeSpec{Kind: KList, Elem: &TypeSpec{Kind: KStruct, Struct: &StructSpec{Fields: []*FieldSpec{{Name: "V1", ID: 1, Type: &TypeSpec{Kind: KString}}}}}}}}}},
+	{Kind: KList, Elem: &TypeSpec{Kind: KMap, Key: &TypeSpec{Kind: KI8}, Elem: &TypeSpec{Kind: KList, Elem: &TypeSpec{Kind: KDouble}}}},
+}
+
+// GenUnknownFields draws well-formed bytes of 1..3 fields that struct s does not
+// recognise: unknown ids, or ids of s carrying another wire type.
+func GenUnknownFields(t *rapid.T, s *StructSpec, budget *int) []byte {
+	n := rapid.IntRange(1, 3).Draw(t, "nunk")
+	var out []byte
+	g := &valGen{t: t, c: GenCfg{ContainerMax: 5, NoNil: true}, budget: 300}
+	for i := 0; i < n; i++ {
+		ut := unknownFieldTypes[rapid.IntRange(0, len(unknownFieldTypes)-1).Draw(t, "unktype")]
+		var id uint16
+		if len(s.Fields) > 0 && rapid.IntRange(0, 3).Draw(t, "unkclash") == 0 {
+			f := s.Fields[rapid.IntRange(0, len(s.Fields)-1).Draw(t, "unkfield")]
+			id = f.ID
+			if f.Type.WT() == ut.WT() {
+				if ut.WT() == WI64 {
+					ut = unknownFieldTypes[6]
+				} else {
+					ut = unknownFieldTypes[4]
+				}
+				if f.Type.WT() == ut.WT() {
+					continue
+				}
+			}
+		} else {
+			id = uint16(rapid.IntRange(0, 65535).Draw(t, "unkid"))
+			for s.ByID(id) != nil {
+				id++
+			}
+		}
+		out = append(out, ut.WT(), byte(id>>8), byte(id))
+		out = appendValRef(out, ut, g.val(ut, 0), EncOpts{})
+	}
+	if budget != nil {
+		*budget -= len(out)
+	}
+	return out
 }
 
 func (g *valGen) fieldVal(f *FieldSpec, depth int) Val {
@@ -387,6 +450,9 @@ func (g *valGen) count() int {
 	if g.budget <= 0 {
 		return 0
 	}
+	if len(g.c.CountChoices) > 0 {
+		return rapid.SampledFrom(g.c.CountChoices).Draw(t, "cntc")
+	}
 	max := g.c.ContainerMax
 	if max == 0 {
 		max = 40
@@ -437,12 +503,12 @@ func (g *valGen) val(ts *TypeSpec, depth int) Val {
 	case KString:
 		return Val{S: g.bytes()}
 	case KBinary:
-		if rapid.IntRange(0, 5).Draw(t, "nilbin") == 0 {
+		if !g.c.NoNil && rapid.IntRange(0, 5).Draw(t, "nilbin") == 0 {
 			return Val{Nil: true}
 		}
 		return Val{S: g.bytes()}
 	case KList, KSet:
-		if rapid.IntRange(0, 7).Draw(t, "nillist") == 0 {
+		if !g.c.NoNil && rapid.IntRange(0, 7).Draw(t, "nillist") == 0 {
 			return Val{Nil: true}
 		}
 		n := g.count()
@@ -453,7 +519,7 @@ func (g *valGen) val(ts *TypeSpec, depth int) Val {
 		g.budget -= 5
 		return out
 	case KMap:
-		if rapid.IntRange(0, 7).Draw(t, "nilmap") == 0 {
+		if !g.c.NoNil && rapid.IntRange(0, 7).Draw(t, "nilmap") == 0 {
 			return Val{Nil: true}
 		}
 		n := g.count()
@@ -481,7 +547,7 @@ func (g *valGen) val(ts *TypeSpec, depth int) Val {
 				if g.budget <= 0 || depth > 40 || rapid.IntRange(0, depth+2).Draw(t, "nilrec") >= 2 {
 					return Val{Nil: true}
 				}
-			} else if rapid.IntRange(0, 7).Draw(t, "nilstruct") == 0 {
+			} else if !g.c.NoNil && rapid.IntRange(0, 7).Draw(t, "nilstruct") == 0 {
 				return Val{Nil: true}
 			}
 		}
@@ -502,4 +568,70 @@ func ZeroSize(s *StructSpec) bool {
 		}
 	}
 	return true
+}
+
+// GenNamedUniverse draws n named struct specs "<prefix>000".. that reference each other
+// (pointers in any direction, by value only towards lower indexes, so layouts stay
+// finite). About half declare defaults.
+func GenNamedUniverse(t *rapid.T, prefix string, n int) []*StructSpec {
+	names := make([]string, n)
+	for i := range names {
+		names[i] = fmt.Sprintf("%s%03d", prefix, i)
+	}
+	var out []*StructSpec
+	for i := 0; i < n; i++ {
+		c := GenCfg{MaxFields: 9, MaxNest: 0, Holder: true, Extras: true, BigIDs: i%7 == 3, Spellings: true,
+			NamedRefs: names, NoCopy: i%5 == 4}
+		c.maxNestZero = true
+		s := genStruct(t, c, 0, "")
+		s.Name = names[i]
+		if ZeroSize(s) {
+			// named types can end up as map keys (by pointer): keep them non-zero-size
+			s.Fields = append(s.Fields, &FieldSpec{ID: 30000, Name: "Pad_30000", Type: &TypeSpec{Kind: KI32}})
+		}
+		for _, f := range s.Fields {
+			f.Name = fmt.Sprintf("%s_%s", f.Name, s.Name) // distinctive: error messages must name the right field
+		}
+		// by-value references only to earlier types
+		var fix func(ts *TypeSpec, key bool)
+		fix = func(ts *TypeSpec, key bool) {
+			switch ts.Kind {
+			case KList, KSet:
+				fix(ts.Elem, false)
+			case KMap:
+				fix(ts.Key, true)
+				fix(ts.Elem, false)
+			case KStruct:
+				if ts.Ref != "" && !key && ts.Ref < s.Name && rapid.IntRange(0, 9).Draw(t, "byvalref") < 3 {
+					ts.Ptr = false
+				}
+			}
+		}
+		for _, f := range s.Fields {
+			fix(f.Type, false)
+		}
+		if rapid.Bool().Draw(t, "hasinit") {
+			s.HasInit = true
+			s.InitWhole = rapid.Bool().Draw(t, "initwhole")
+			s.Defaults = map[uint16]Val{}
+			g := &valGen{t: t, c: c, budget: 200}
+			for _, f := range s.Fields {
+				if f.GoPtr {
+					continue
+				}
+				switch f.Type.Kind {
+				case KBool, KI8, KI16, KI32, KI64, KDouble, KString, KEnum, KBinary:
+					if rapid.IntRange(0, 2).Draw(t, "hasdef") > 0 {
+						d := g.val(f.Type, 0)
+						if f.Type.Kind == KBinary && d.Nil {
+							continue
+						}
+						s.Defaults[f.ID] = d
+					}
+				}
+			}
+		}
+		out = append(out, s)
+	}
+	return out
 }
